@@ -21,6 +21,12 @@ from common import err_kind, hexs
 PART = "tmpl"
 SIG_MDP_NL = "C19:mdp:append-after-missing-final-newline"
 SIG_LMP_2L = "C19:lammps:variable-on-two-lines"
+SIG_LMP_WORD = "C19:lammps:unrequested-word-edited"
+SIG_LMP_WORD_RAISES = "C19:lammps:raises-though-every-variable-is-a-word"
+SIG_LMP_SAMELINE = "C19:lammps:substring-on-a-requested-line"
+# behaviour of the UNCHANGED /repo that the whole-word predicate rejects (reported, not yet a recorded finding):
+# a failure with one of these signatures becomes a ctx.note instead of a VIOLATION
+PENDING_FINDINGS = {SIG_LMP_SAMELINE}
 
 
 def _imports():
@@ -289,6 +295,63 @@ def lmp_predicates(box, write_for_run, tmpl, settings, first=None):
     return None
 
 
+def lmp_word_keys(settings):
+    """domain of the whole-word predicate: every requested variable is one non-empty white-space free word"""
+    return all(isinstance(k, str) and k and k.split() == [k] for k in settings)
+
+
+def lmp_entangled(line, settings):
+    """a requested variable that is a word of this line ALSO occurs on the same line inside a longer word, or inside
+    the value of a variable substituted earlier on this line: there `str.replace` of the unchanged code reaches
+    beyond the word (Lean: lammps_edit_words_same_line_counterexample)"""
+    toks = line.split()
+    on = [k for k in settings if k in toks]
+    for i, k in enumerate(on):
+        if any(k in t and k != t for t in toks):
+            return True
+        if any(k in str(settings[k2]) for k2 in on[:i]):
+            return True
+    return False
+
+
+def lmp_word_predicate(tmpl, settings, first):
+    """`editing changes exactly the requested entries`, stated word by word on the real output and independent of the
+    model: every white-space delimited word of the template is kept unless the word IS a requested variable, then it
+    is the requested value; all white space (line structure) is kept; a call with every requested variable present
+    as a whole word does not raise.  A word that merely CONTAINS a variable name stays untouched.
+    Returns (signature, message) or None.  Domain: lmp_word_keys(settings)."""
+    st, out = first
+    tl = lines_nl(tmpl)
+    toks = set(tmpl.split())
+    if all(k in toks for k in settings) and st != "ok":
+        two = any(sum(1 for l in tl if k in l.split()) > 1 for k in settings)
+        return (SIG_LMP_2L if (st == "err:key" and two) else SIG_LMP_WORD_RAISES,
+                f"write_for_run raised {st} although every requested variable is a word of the template; "
+                f"file so far {out!r}")
+    if out is None:
+        return None          # the call raised before writing (some variable is no word of the template)
+    want = [lmp_expected(l, settings) for l in tl]
+    if out == "".join(want):
+        return None
+    ol = lines_nl(out)
+    if len(ol) != len(want):
+        # values without newline cannot change the number of lines
+        if not any("\n" in str(v) for v in settings.values()):
+            return (SIG_LMP_WORD, f"line structure changed: {len(tl)} template lines, {len(ol)} output lines: {out!r}")
+        return None
+    bad = [i for i in range(len(want)) if ol[i] != want[i]]
+    if any("\n" in str(v) for v in settings.values()):
+        return None
+    hard = [i for i in bad if not lmp_entangled(tl[i], settings)]
+    if hard:
+        i = hard[0]
+        return (SIG_LMP_WORD, f"template line {i} {tl[i]!r} became {ol[i]!r}; with only the words that ARE requested "
+                f"variables {sorted(k for k in settings if k in tl[i].split())} set it is {want[i]!r}")
+    i = bad[0]
+    return (SIG_LMP_SAMELINE, f"template line {i} {tl[i]!r} became {ol[i]!r}, word by word it is {want[i]!r}: the "
+            "variable is a word of the line and also part of a longer word / an earlier value on the same line")
+
+
 LMP_LINES = [
     "variable\tsubcycles index infretis_subcycles\n", "variable timestep index infretis_timestep\n",
     "variable nsteps index infretis_nsteps\n", "run infretis_nsteps\n", "# infretis_nsteps is replaced\n",
@@ -429,6 +492,12 @@ def _run(ctx, box, EngineBase, write_for_run):
         ctx.count(1, branch="lammps:" + lcode[k][0])
         if nontriv:
             ctx.distinct(("lmp", t, tuple(sorted((a, str(b)) for a, b in s.items()))))
+        if lmp_word_keys(s):
+            ctx.hit("lammps:whole-word-predicate")
+            r = lmp_word_predicate(t, s, lcode[k])
+            if r is not None:
+                note_fail(fails, r, {"part": PART, "fn": "lammps-word", "template": t,
+                                     "settings": {a: str(b) for a, b in s.items()}})
         if not lmp_clean(t, s):
             continue
         ctx.hit("lammps:property-domain")
@@ -440,6 +509,11 @@ def _run(ctx, box, EngineBase, write_for_run):
                         "code": list(lcode[k])})
     for sig in sorted(fails):
         size, what, replay, n = fails[sig]
+        if sig in PENDING_FINDINGS:
+            # (common.Ctx has no note(): the pending finding is written into the evidence file instead)
+            ctx.extra.setdefault("pending_findings", {})[sig] = {"what": what, "inputs_this_run": n, "smallest": replay}
+            ctx.hit("pending:" + sig)
+            continue
         ctx.fail(sig, f"{what} [{n} failing inputs this run; smallest shown]", replay)
     ctx.extra["tmpl_cases_behaving_as_before_the_repairs"] = {"mdp": st["regressed"], "lammps": st2["regressed"]}
     ctx.assumptions += [
@@ -465,6 +539,12 @@ def replay_part(ctx, obj):
     try:
         if r.get("fn") == "mdp":
             res = mdp_predicates(box, EngineBase, r["template"], r["settings"])
+        elif r.get("fn") == "lammps-word":
+            res = lmp_word_predicate(r["template"], r["settings"],
+                                     wfr_code(box, write_for_run, r["template"], r["settings"]))
+            if res is not None and res[0] in PENDING_FINDINGS:
+                print("replay: pending finding (not counted):", res)
+                res = None
         else:
             res = lmp_predicates(box, write_for_run, r["template"], r["settings"])
     finally:
